@@ -74,7 +74,7 @@ view == <<hist, tip, cache, next, steps>>
 
 Put(f, k, v) == [x \in DOMAIN f \cup {k} |-> IF x = k THEN v ELSE f[x]]
 Drop(f, S)   == [x \in DOMAIN f \ S |-> f[x]]
-Max(S)       == CHOOSE x \in S : \A y \in S : y <= x
+MaxOf(S)       == CHOOSE x \in S : \A y \in S : y <= x
 
 -----------------------------------------------------------------------------
 \* Operations and evaluation (what Patch::op / Issue::op compute, as far as the cache cares)
@@ -104,7 +104,7 @@ Eval(h, n) == IF n = 0 THEN None ELSE ApplyOp(Eval(h, n - 1), h[n])
 
 Objs == DOMAIN hist
 Exists(i) == DOMAIN tip[i] # {}
-Top(i) == Max({tip[i][ns] : ns \in DOMAIN tip[i]})
+Top(i) == MaxOf({tip[i][ns] : ns \in DOMAIN tip[i]})
 Value(i) == Eval(hist[i], Top(i))
 \* what direct evaluation of the repository sees
 Direct == [i \in {j \in Objs : Exists(j)} |-> Value(i)]
@@ -189,7 +189,7 @@ Record(what) ==
     /\ steps' = steps + 1
     /\ log' = Append(log, [step |-> what,
                            ans |-> Answers([i \in {j \in DOMAIN hist' : DOMAIN tip'[j] # {}} |->
-                                               Eval(hist'[i], Max({tip'[i][ns] : ns \in DOMAIN tip'[i]}))], FALSE, next' - 1)])
+                                               Eval(hist'[i], MaxOf({tip'[i][ns] : ns \in DOMAIN tip'[i]}))], FALSE, next' - 1)])
 
 OpsSoFar == next - 1
 
@@ -214,7 +214,7 @@ LocalOp(i, o) ==
 
 \* Cache::remove: my reference goes; the entry is removed -- or, if the object lives on through
 \* the peer's reference, rewritten with what is left of it
-Remove(i) ==
+RemoveMine(i) ==
     /\ i \in Objs /\ Me \in DOMAIN tip[i]
     /\ tip' = [tip EXCEPT ![i] = Drop(@, {Me})]
     /\ cache' = IF Peer \in DOMAIN tip[i] /\ ~RemoveDrops
@@ -263,7 +263,7 @@ Next ==
        \/ \E o \in Creations(Peer) : FetchedCreate(o)
        \/ \E i \in Objs : Exists(i) /\ (\E o \in OpsOn(i, Me) : LocalOp(i, o))
        \/ \E i \in Objs : Exists(i) /\ (\E o \in OpsOn(i, Peer) : FetchedOp(i, o))
-       \/ \E i \in Objs : Remove(i) \/ FetchedDelete(i)
+       \/ \E i \in Objs : RemoveMine(i) \/ FetchedDelete(i)
        \/ \E kind \in {"patch", "issue"} : WriteAll(kind)
 
 Spec == Init /\ [][Next]_vars
